@@ -331,12 +331,16 @@ struct Checker {
         E3 ea = E3::createVariable(a, 0), eb = E3::createVariable(b, 1);
         E3 e = f(ea, eb);
         r.d0 = e.derivative(0); r.d1 = e.derivative(1);
-        // same algorithm, same inputs: the value part may differ by rounding only (x/s is computed as x*(1/s))
+        // same algorithm, same inputs: the value part may differ by rounding only (x/s is computed as x*(1/s)).
+        // Rounding is relative to the terms the value is built from, not to the value: where a table is
+        // extrapolated towards a zero crossing (or a viscosity towards a pole) |value| << |terms|; the size of the
+        // terms is taken from the sensitivities |df/da * a| + |df/db * b|.
         ++comparisons;
         rep.cover("comparisons", "evaluation-value-vs-double");
-        double ed = vh::reldiff(e.value(), r.v);
+        const double mag = std::fabs(r.v) + std::fabs(r.d0 * a) + std::fabs(r.d1 * b);
+        const double ed = std::fabs(e.value() - r.v) / (mag > 0 ? mag : 1.0);
         if (std::isfinite(ed)) rep.maxof("max_rel_err:evaluation-value-vs-double", ed);
-        if (!(ed <= 1e-10)) {
+        if (!(ed <= 1e-11)) {
             std::ostringstream o; o.precision(17);
             o << fn << "(" << a << ", " << b << "): Evaluation argument gives value " << e.value() << ", double argument gives " << r.v;
             fail("evaluation-vs-double:" + kw + ":" + fn, o.str());
@@ -358,14 +362,17 @@ struct Checker {
     // The point is "away from kinks" when dl and dr agree: a kink at x itself (invisible to central differences,
     // which return the mean of both slopes whatever the step) or anywhere inside [x-2h, x+2h] makes them differ
     // by the jump of the slope.  Accepting |dl-dr| <= 2e-6 bounds the kink-induced part of |AD - dc| by 1e-6.
-    template <class G> void slope(const std::string& fn, const char* arg, G&& g, double x, double xs, double ad, double fval) {
+    // `mag`: size of the terms the function value is built from (see both()); the rounding noise of g is a few
+    // hundred times 1e-16 mag where neighbouring branches are extrapolated, which the floor must cover.
+    template <class G> void slope(const std::string& fn, const char* arg, G&& g, double x, double xs, double ad, double mag) {
         const double h = 4e-6 * xs;
         const double gm2 = g(x - 2 * h), gm1 = g(x - h), g0 = g(x), gp1 = g(x + h), gp2 = g(x + 2 * h);
         const double dl = (3 * g0 - 4 * gm1 + gm2) / (2 * h);
         const double dr = (-3 * g0 + 4 * gp1 - gp2) / (2 * h);
         const double dc = (8 * (gp1 - gm1) - (gp2 - gm2)) / (12 * h);
-        // rounding of the quotients is ~ 4e-16 |f| / h = 1e-10 |f| / xs
-        const double floor_ = 2e-9 * std::fabs(fval) / xs;
+        // rounding of the quotients is ~ 4e-16 mag / h = 1e-10 mag / xs for a function evaluated to full precision;
+        // observed noise is up to 50 times that (2D interpolation between extrapolated branches): floor at 200 times
+        const double floor_ = 2e-8 * mag / xs;
         if (!std::isfinite(ad)) {
             std::ostringstream o; o.precision(17);
             o << fn << ": derivative with respect to " << arg << " at " << x << " is not finite";
@@ -385,7 +392,8 @@ struct Checker {
         rep.count("ad_derivative_comparisons");
         const double big = std::max(std::fabs(ad), std::fabs(dc));
         const double err = std::fabs(ad - dc), tol = 1e-5 * big + floor_;
-        if (big > 0) rep.maxof("max_rel_err:ad-derivative", err / (big + floor_));
+        if (big > 1e5 * floor_) rep.maxof("max_rel_err:ad-derivative", err / big);   // (reported for derivatives well above the rounding floor)
+        rep.maxof("max_ad_err_over_tolerance", err / tol);
         if (dc != 0.0) rep.count("ad_derivative_nonzero");
         if (!(err <= tol)) {
             std::ostringstream o; o.precision(17);
@@ -398,8 +406,9 @@ struct Checker {
     // (sa, sb: magnitudes of the two arguments, see slope(); sb == 0: the second argument is not differentiated)
     template <class F> Val full(const char* fn, F&& f, double a, double sa, double b, double sb) {
         Val r = both(fn, f, a, b);
-        slope(fn, "argument 1", [&](double x) { return (double)f(x, b); }, a, sa, r.d0, r.v);
-        if (sb > 0) slope(fn, "argument 2", [&](double x) { return (double)f(a, x); }, b, sb, r.d1, r.v);
+        const double mag = std::fabs(r.v) + std::fabs(r.d0 * a) + std::fabs(r.d1 * b);
+        slope(fn, "argument 1", [&](double x) { return (double)f(x, b); }, a, sa, r.d0, mag);
+        if (sb > 0) slope(fn, "argument 2", [&](double x) { return (double)f(a, x); }, b, sb, r.d1, mag);
         return r;
     }
 };
@@ -549,18 +558,28 @@ static void checkLive(Checker& c, Rng& rng, const Pvt&, const PvtxTab& t, bool o
     }
 
     // ---- derivatives at random points inside and beyond the table ----------------------------
+    // Beyond the table the functions continue linearly; a point is used only while the extrapolated 1/B and mu stay
+    // within a factor 4 (10) of the tabulated range: further out 1/B crosses zero and mu has poles, the values are
+    // differences of large terms and neither the model nor a difference quotient is meaningful there.
+    double ibMin = 1e300, ibMax = 0, muMin = 1e300, muMax = 0;
+    for (const auto& b : t.br) for (const auto& r : b.rows) {
+        ibMin = std::min(ibMin, 1.0 / (r.B * bUnit)); ibMax = std::max(ibMax, 1.0 / (r.B * bUnit));
+        muMin = std::min(muMin, r.mu * u.visc); muMax = std::max(muMax, r.mu * u.visc);
+    }
+    auto sane = [&](double ib, double m) { return ib > 0.25 * ibMin && ib < 4 * ibMax && m > 0.1 * muMin && m < 10 * muMax; };
     for (int k = 0; k < 6; ++k) {
         double p = rng.uniform(sat[0].p - 0.2 * pSpan, sat[0].p + 1.3 * pSpan);
         double R = rng.uniform(Rmin - 0.1 * RRange, Rmax + 0.3 * RRange);
-        if (p < 0.3 * sat[0].p) p = sat[0].p * rng.uniform(0.3, 1.0);
+        if (p < 0.5 * sat[0].p) p = sat[0].p * rng.uniform(0.5, 1.0);
+        if (!sane((double)invB(p, R), (double)mu(p, R))) { c.rep.count("random_points_skipped_extrapolated_out_of_physical_range"); continue; }
         c.rep.cover("ad_point_location", (p < sat[0].p || p > pMaxAll || R < Rmin || R > Rmax) ? "beyond-table-range" : "inside-table-range");
-        Val vb = c.full("inverseFormationVolumeFactor", fInvB, p, p, R, RRange);
-        Val vm = c.full("viscosity", fMu, p, p, R, RRange);
-        (void)vb; (void)vm;
+        c.full("inverseFormationVolumeFactor", fInvB, p, p, R, RRange);
+        c.full("viscosity", fMu, p, p, R, RRange);
     }
     for (int k = 0; k < 3; ++k) {
         double p = rng.uniform(sat[0].p - 0.2 * pRange, sat[n - 1].p + 0.4 * pRange);
-        if (p < 0.3 * sat[0].p) p = sat[0].p * rng.uniform(0.3, 1.0);
+        if (p < 0.5 * sat[0].p) p = sat[0].p * rng.uniform(0.5, 1.0);
+        if (!sane((double)satInvB(p), (double)satMu(p))) { c.rep.count("random_points_skipped_extrapolated_out_of_physical_range"); continue; }
         c.full("saturatedInverseFormationVolumeFactor", fSatInvB, p, p, 0.0, 0.0);
         c.full("saturatedViscosity", fSatMu, p, p, 0.0, 0.0);
         c.full(oil ? "saturatedGasDissolutionFactor" : "saturatedOilVaporizationFactor", fSatR, p, p, 0.0, 0.0);
@@ -605,9 +624,17 @@ static void checkDead(Checker& c, Rng& rng, const PvdTab& t, bool oil, InvB&& in
             c.within("bracket:" + K + ":" + Mn, "bracket", std::string(Mn) + " " + w2.str(), mm.v, t.rows[k].mu * u.visc, t.rows[k + 1].mu * u.visc);
         }
     }
+    double ibMin = 1e300, ibMax = 0, muMin = 1e300, muMax = 0;
+    for (const auto& r : t.rows) {
+        ibMin = std::min(ibMin, 1.0 / (r.B * bUnit)); ibMax = std::max(ibMax, 1.0 / (r.B * bUnit));
+        muMin = std::min(muMin, r.mu * u.visc); muMax = std::max(muMax, r.mu * u.visc);
+    }
     for (int k = 0; k < 3; ++k) {
         double p = rng.uniform(t.rows[0].y * u.p - 0.2 * pRange, t.rows[n - 1].y * u.p + 0.4 * pRange);
-        if (p < 0.3 * t.rows[0].y * u.p) p = t.rows[0].y * u.p * rng.uniform(0.3, 1.0);
+        if (p < 0.5 * t.rows[0].y * u.p) p = t.rows[0].y * u.p * rng.uniform(0.5, 1.0);
+        // (same restriction to the physically meaningful part of the linear continuation as for the live tables)
+        const double ib = satInvB(p), m = satMu(p);
+        if (!(ib > 0.25 * ibMin && ib < 4 * ibMax && m > 0.1 * muMin && m < 10 * muMax)) { c.rep.count("random_points_skipped_extrapolated_out_of_physical_range"); continue; }
         c.rep.cover("ad_point_location", (p < t.rows[0].y * u.p || p > t.rows[n - 1].y * u.p) ? "beyond-table-range" : "inside-table-range");
         c.full("inverseFormationVolumeFactor", fInvB, p, p, anyR, 100.0);
         c.full("viscosity", fMu, p, p, anyR, 100.0);
